@@ -391,7 +391,7 @@ func Run(r *ev.Run) {
 		r.AddStates(res.States, res.Transitions, res.Transitions)
 	}
 	// the four schedule/fault parts, each schedule tree split over treeParts worker processes
-	parts := []func(*ev.Run) (int64, int64){runFaults, runSchedules, runReplayVsRemove, runJoinVsRegister}
+	parts := []func(*ev.Run) (int64, int64){runFaults, runSchedules, runReplayVsRemove, runJoinVsRegister, runRemoveVsRecord}
 	const treeParts = 4
 	r.Bounds["schedule_tree_shards"] = treeParts
 	par.Run(r, len(parts)*treeParts, 40*time.Minute, func(i, n int, r *ev.Run) {
@@ -512,5 +512,77 @@ func runJoinVsRegister(r *ev.Run) (int64, int64) {
 		r.Outcome("sched-join-register/" + o)
 	}
 	r.Extra["schedules_join_vs_register"+shardSuffix()] = map[string]any{"executions": t.Executions, "choice_points": t.Points, "distinct_observations": len(outcomes), "preemption_bound": bound}
+	return t.Executions, t.Points
+}
+
+// Part 3d: an event is recorded while a listener is being removed.  The removal prunes the
+// listener's add event from the retained log; whatever is recorded meanwhile must stay.
+// On every schedule: afterwards the retained log holds every chat event exactly once and
+// in order, and no add event of the removed listener.
+func runRemoveVsRecord(r *ev.Run) (int64, int64) {
+	bound := 2
+	if r.Thorough() {
+		bound = 3
+	}
+	outcomes := map[string]bool{}
+	t := explore.Tree{Bound: bound, Deadline: time.Now().Add(treeDeadline(r))}
+	t.RunShard(treeShard, treeShards, func(c *explore.Chooser) {
+		ts := seam.New(seam.Options{})
+		defer ts.Close()
+		chat := func(i int) {
+			ts.T.EventAppend(packager.Package{Head: packager.Head{Event: 4, User: "op2"}, Body: packager.Body{SubEvent: 1, Info: map[string]any{"User": "op2", "Message": fmt.Sprintf("c%d", i)}}})
+		}
+		chat(0)
+		if err := ts.T.ListenerStart(handlers.LISTENER_PIVOT_SMB, handlers.SMBConfig{Name: "L1", PipeName: "p"}); err != nil {
+			panic(err)
+		}
+		chat(1)
+		s := vsched.New(c, 20000, "EventsList", "Listeners", "sync.Mutex")
+		s.Spawn("remover", func() {
+			dispatch(ts.T, packager.Type.Listener.Type, packager.Type.Listener.Remove, map[string]any{"Name": "L1"})
+		})
+		s.Spawn("recorder", func() {
+			chat(2)
+			chat(3)
+		})
+		s.Run()
+		var chats, adds []string
+		for _, e := range ts.T.EventsList {
+			tg := tagOf(e)
+			if strings.HasPrefix(tg, "chat:") {
+				chats = append(chats, strings.TrimPrefix(tg, "chat:"))
+			}
+			if strings.HasPrefix(tg, "ladd:L1") {
+				adds = append(adds, tg)
+			}
+		}
+		obs := fmt.Sprintf("chats=%v adds=%v", chats, adds)
+		outcomes[obs] = true
+		detail := map[string]any{"choices": c.Choices(), "schedule_tail": tail(s.Trace, 40), "observed": obs}
+		switch {
+		case len(s.Panics) > 0:
+			r.Violate("remove-vs-record/panic/"+ev.Normalize(s.Panics[0]), s.Panics[0], detail)
+		case s.Deadlock:
+			r.Violate("remove-vs-record/deadlock", s.DeadlockWhy, detail)
+		case s.HorizonHit:
+			r.Violate("remove-vs-record/horizon", "did not finish", detail)
+		case len(s.Held()) > 0:
+			r.Violate("remove-vs-record/lock-held", fmt.Sprint(s.Held()), detail)
+		case strings.Join(chats, " ") != "c0 c1 c2 c3":
+			r.Violate("remove-vs-record/retained-events", fmt.Sprintf("recorded were c0 c1 (before) and c2 c3 (during the removal); the retained log holds %v", chats), detail)
+		case len(adds) != 0:
+			r.Violate("remove-vs-record/removed-listener-still-advertised", fmt.Sprintf("the retained log still holds %v", adds), detail)
+		}
+	})
+	if t.Err != nil {
+		r.Violate("harness/nondeterminism", t.Err.Error(), nil)
+	}
+	if t.Capped {
+		r.NotExhaustive("remove-vs-record exploration stopped by the internal deadline")
+	}
+	for o := range outcomes {
+		r.Outcome("remove-vs-record/" + o)
+	}
+	r.Extra["remove_vs_record"+shardSuffix()] = map[string]any{"preemption_bound": bound, "executions": t.Executions, "choice_points": t.Points, "distinct_observations": len(outcomes)}
 	return t.Executions, t.Points
 }
